@@ -425,8 +425,20 @@ class Interp:
                 self.stmt(func, body, env)
                 if isinstance(inc, dict) and inc.get('kind'):
                     self.expr(func, inc, env, inc)
-        if k in ('IfStmt', 'WhileStmt', 'DoStmt', 'SwitchStmt', 'CXXTryStmt', 'BreakStmt', 'ContinueStmt', 'GotoStmt'):
+        if k == 'CXXTryStmt':
+            # the handlers run only when something throws: the expectations are those of the body
+            self.stmt(func, children(s)[0], env)
+            return
+        if k in ('IfStmt', 'WhileStmt', 'DoStmt', 'SwitchStmt', 'BreakStmt', 'ContinueStmt', 'GotoStmt'):
             self.unexpected(func, s, env)
+            # control flow that is not executed here must not hide a way out of the validator or a block
+            for y in walk(s):
+                if y.get('kind') == 'ReturnStmt' or (y.get('kind') == 'VarDecl' and _list_type(y.get('type'))) or \
+                        (y.get('kind') == 'CallExpr' and (strip(children(y)[0]).get('referencedDecl') or {}).get('name')
+                         in ('validate', 'validate_no_more')):
+                    if not self.touched(func, s, env):
+                        raise AnalysisBroken('%s: %s in a validator decides whether expectations are checked: '
+                                             'outside the modelled subset' % (locstr(s), k))
             if k in ('BreakStmt', 'ContinueStmt'):
                 for o in self.objs:
                     if not o.block.terminated:
